@@ -63,6 +63,9 @@ RULE = ("(content-coded chunked bodies {raw deflate, zlib, gzip} x both directio
         "compress, keep-alive, wire framing, receiver's framing view and close decision) and with the shared parser model run on "
         "the recorded wire bytes. non-trivial = the exchange put a request on the wire or was refused by the API; distinct by case.")
 TRUSTED_BASE = [
+    "every exchange runs under a wall-clock budget (C02_CASE_BUDGET_S, default 90 s; virtual time makes the code's own timeouts "
+    "instantaneous) and inside an exception guard: an exchange that keeps running, or whose execution/judging raises, is reported as "
+    "a violation with its case (exchange-never-completes / *-stalls / exchange-broke-the-observer), never as a crash of the check",
     "flow control, the sock_read timer and failing upload sources (harness/common/c02flow.py) are ORACLE-ONLY scenarios on the real "
     "objects: the StreamReader high/low-water marks, transport pause/resume, HttpPayloadParser's pause/pending-input states and "
     "ResponseHandler's read timer are not in the Lean model (the body parser's pause states belong to C09); only the ending of "
@@ -455,8 +458,9 @@ def run_case(case, tmpdir):
 
     async def main():
         await _exchange(case, tmpdir, obs)
-    _, excs, quiescent = vloop.run(main)
-    obs["quiescent"] = quiescent
+    from .common.c02pipe import run_budgeted
+    run_budgeted(main, obs)
+    excs = obs.pop("loop_excs_raw", [])
     obs["loop_excs"] = [type(c.get("exception")).__name__ if c.get("exception") else c.get("message", "?")[:40] for c in excs]
     obs.pop("conn", None)
     return obs
@@ -1436,6 +1440,20 @@ class _Logging:
         logging.disable(self.prev)
 
 
+def _guarded(ctx, step, fn):
+    """post-processing of observations must not crash the check either: an exception there means the observations of
+    this tree have a shape the comparison never met — reported as a correspondence failure, not as exit 2"""
+    from .common.guard import MachineryError
+    try:
+        fn()
+    except MachineryError:
+        raise
+    except Exception as e:  # noqa
+        tb = traceback.extract_tb(e.__traceback__)
+        where = "; ".join(f"{os.path.basename(f.filename)}:{f.lineno} {f.name}" for f in tb[-3:])
+        ctx.mismatch({"step": step}, f"{type(e).__name__}: {e!s:.200} ({where})", "comparison completed", f"observer exception in {step}")
+
+
 def check(ctx):
     with _Logging():
         _check(ctx)
@@ -1448,7 +1466,7 @@ def _check(ctx):
         # flow control / sock_read timer / failing upload sources (oracle + the `_write_bytes` decision table)
         fcases = c02flow.check(ctx, lambda: ctx.time_left() is not None and ctx.time_left() < 30,
                                extra=[c for c in corpus_cases() if c.get("kind") in c02flow.KINDS])
-        compare_upfail(ctx, fcases)
+        _guarded(ctx, "compare_upfail", lambda: compare_upfail(ctx, fcases))
         cases = [c for c in corpus_cases() if c.get("kind") not in c02flow.KINDS]
         cases += systematic_cases(ctx)
         n = 700 if ctx.quick else 12000
@@ -1460,14 +1478,27 @@ def _check(ctx):
             if ctx.time_left() is not None and ctx.time_left() < 8:
                 ctx.notes.append(f"stopped after {i} of {len(cases)} cases: time budget")
                 break
-            obs = judge(ctx, case, tmpdir, lines, pending)
+            mark = (len(lines), len(pending))
+            try:
+                obs = judge(ctx, case, tmpdir, lines, pending)
+            except Exception as e:  # noqa: a verdict, never a crash (see c02flow.check)
+                from .common.guard import MachineryError
+                if isinstance(e, MachineryError):
+                    raise
+                del lines[mark[0]:]; del pending[mark[1]:]
+                tb = traceback.extract_tb(e.__traceback__)
+                where = "; ".join(f"{os.path.basename(f.filename)}:{f.lineno} {f.name}" for f in tb[-3:])
+                ctx.violation(f"C02/exchange-broke-the-observer/main/{type(e).__name__}", case,
+                              f"running or judging this exchange raised {type(e).__name__}: {e!s:.200} ({where})")
+                ctx.hit("observer-exception:" + type(e).__name__)
+                continue
             nontriv = bool(obs.get("wires")) or bool(obs.get("client_refused"))
             ctx.case(("x", case), nontrivial=nontriv,
                      sample={"case": case, "caller": {k: (v if not isinstance(v, bytes) else len(v)) for k, v in obs.get("cli", {}).items() if k in ("status", "exc", "body")}} if i % 211 == 0 else None)
             if i % 9 == 0:
                 samples.append((case, obs))
-        compare_all(ctx, lines, pending)
-        feed_lines(ctx, samples)
+        for step, fn in (("compare_all", lambda: compare_all(ctx, lines, pending)), ("feed_lines", lambda: feed_lines(ctx, samples))):
+            _guarded(ctx, step, fn)
 
 
 def systematic_cases(ctx):
@@ -1546,7 +1577,10 @@ def single_cut_cases(ctx, tmpdir):
             if rq.get("expect100") and ver == [1, 0]:
                 continue
             base = {"ver": ver, "fc": False, "seg": [["whole"], ["whole"]], "req": rq, "resp": rs}
-            obs = run_case(base, tmpdir)
+            try:
+                obs = run_case(base, tmpdir)
+            except Exception:  # noqa: the base exchange is judged when it runs as a case of its own
+                obs = {}
             w = (obs.get("wires") or [(b"", b"")])[0]
             l1, l2 = len(w[0]), len(w[1])
             offs1, offs2 = list(range(1, l1)), list(range(1, l2))
@@ -1583,6 +1617,16 @@ def compare_upfail(ctx, fcases):
 
 
 def replay(ctx, case):
+    try:
+        _replay(ctx, case)
+    except Exception as e:  # noqa: a verdict, never a crash
+        from .common.guard import MachineryError
+        if isinstance(e, MachineryError):
+            raise
+        ctx.violation(f"C02/exchange-broke-the-observer/replay/{type(e).__name__}", case, f"replaying this exchange raised {type(e).__name__}: {e!s:.200}")
+
+
+def _replay(ctx, case):
     if case.get("kind") in c02flow.KINDS:
         with _Logging():
             c02flow.oracle(ctx, case, c02flow.run_case(case))
